@@ -34,6 +34,8 @@ Fixpoint print (x : sx) : list N :=
   end.
 
 (* ---------- parsing: one fold over the characters ---------- *)
+(* linear-time reversal (List.rev is quadratic) *)
+Definition frev {A} (l : list A) : list A := rev_append l [].
 Inductive tok := TNone | TInt (neg : bool) (acc : Z) | TByt (acc : list N) (hi : option N).
 Record pst := { stk : list (list sx); cur : list sx; tk : tok; bad : bool }.
 
@@ -48,7 +50,7 @@ Definition flush (p : pst) : pst :=
   | TNone => p
   | TInt neg acc =>
       {| stk := stk p; cur := I (if neg then Z.opp acc else acc) :: cur p; tk := TNone; bad := bad p |}
-  | TByt acc None => {| stk := stk p; cur := B (rev acc) :: cur p; tk := TNone; bad := bad p |}
+  | TByt acc None => {| stk := stk p; cur := B (frev acc) :: cur p; tk := TNone; bad := bad p |}
   | TByt _ (Some _) => {| stk := stk p; cur := cur p; tk := TNone; bad := true |}
   end.
 Definition fail (p : pst) : pst := {| stk := stk p; cur := cur p; tk := tk p; bad := true |}.
@@ -67,7 +69,7 @@ Definition pstep (p : pst) (c : N) : pst :=
           if c =? 32 then p
           else if c =? 41 then
             match stk p with
-            | top :: rest => {| stk := rest; cur := L (rev (cur p)) :: top; tk := TNone; bad := bad p |}
+            | top :: rest => {| stk := rest; cur := L (frev (cur p)) :: top; tk := TNone; bad := bad p |}
             | [] => fail p
             end
           else fail p
@@ -80,7 +82,7 @@ Definition pstep (p : pst) (c : N) : pst :=
           if c =? 32 then p
           else if c =? 41 then
             match stk p with
-            | top :: rest => {| stk := rest; cur := L (rev (cur p)) :: top; tk := TNone; bad := bad p |}
+            | top :: rest => {| stk := rest; cur := L (frev (cur p)) :: top; tk := TNone; bad := bad p |}
             | [] => fail p
             end
           else fail p
@@ -90,7 +92,7 @@ Definition pstep (p : pst) (c : N) : pst :=
       else if c =? 40 then {| stk := cur p :: stk p; cur := []; tk := TNone; bad := bad p |}
       else if c =? 41 then
         match stk p with
-        | top :: rest => {| stk := rest; cur := L (rev (cur p)) :: top; tk := TNone; bad := bad p |}
+        | top :: rest => {| stk := rest; cur := L (frev (cur p)) :: top; tk := TNone; bad := bad p |}
         | [] => fail p
         end
       else if c =? 35 then settk p (TByt [] None)
